@@ -73,6 +73,37 @@ def gen_case(rng, cls):
         seqs = ["".join(rng.choice(odd) if rng.random() < 0.06 else c for c in s) for s in seqs]
         if kind == "protein":
             kind, seqs = _ensure_protein(rng, seqs)
+    elif cls == "near_end":
+        # members that lack residues directly before the last / after the first residue of their relatives; prefixes and suffixes
+        kind = rng.choice(["dna", "protein"])
+        alpha = gen.DNA if kind == "dna" else gen.AA
+        n = rng.randint(3, 30)
+        root = gen.rand_seq(rng, rng.randint(12, 120), alpha)
+        seqs = []
+        for _ in range(n):
+            s_ = gen.mutate(rng, root, alpha, 0.05, 0.0)
+            r_ = rng.random()
+            k = rng.randint(1, 4)
+            if r_ < 0.3 and len(s_) > 8:
+                s_ = s_[:-1 - k] + s_[-1:]
+            elif r_ < 0.5 and len(s_) > 8:
+                s_ = s_[:1] + s_[1 + k:]
+            elif r_ < 0.7:
+                s_ = s_[:rng.randint(max(2, len(s_) // 2), len(s_))]
+            seqs.append(s_)
+        if kind == "protein":
+            kind, seqs = _ensure_protein(rng, seqs) if rng.random() < 0.3 else (kind, seqs)
+            tot = sum(len(x) for x in seqs)
+            if sum(1 for x in seqs for c in x if c in gen.AA_ONLY) * 4 < tot:
+                kind, seqs = _ensure_protein(rng, seqs)
+    elif cls == "outlier":
+        # >= 100 related sequences plus one unrelated one (a k-means cluster of exactly one member)
+        kind = "protein"
+        fam = gen.family(rng, rng.choice([100, 130, 180]), rng.randint(30, 70), gen.AA, psub=0.15, pindel=0.03)
+        out_ = gen.rand_seq(rng, rng.choice([60, 248, 400]), rng.choice(["WCHMYFP", "GPNDSTQ", gen.AA]))
+        seqs = list(fam)
+        seqs.insert(rng.randint(0, len(seqs)), out_)
+        kind, seqs = _ensure_protein(rng, seqs)
     elif cls == "late_gaps":
         # more than 50 records; gap characters only in records after the 50th (the input is an incomplete / partial alignment)
         kind = rng.choice(["dna", "protein"])
@@ -241,10 +272,10 @@ def run(ck, tier):
     paths = build("asan")
     sc = getattr(ck, "scale", 1.0)
     if tier == "quick":
-        plan = [("huge", 2), ("odd_letters", 10), ("late_gaps", 6), ("bulk", 60), ("boundary_len", 17), ("boundary_n", 6), ("empties", 8), ("ratio", 2), ("many", 1), ("long", 1)]
+        plan = [("huge", 2), ("odd_letters", 10), ("late_gaps", 6), ("near_end", 12), ("outlier", 3), ("bulk", 60), ("boundary_len", 17), ("boundary_n", 6), ("empties", 8), ("ratio", 2), ("many", 1), ("long", 1)]
         big = build("rel")
     else:
-        plan = [("huge", 12), ("odd_letters", 150), ("late_gaps", 80), ("bulk", 1200), ("boundary_len", 170), ("boundary_n", 60), ("empties", 120), ("ratio", 20), ("many", 12), ("long", 12)]
+        plan = [("huge", 12), ("odd_letters", 150), ("late_gaps", 80), ("near_end", 200), ("outlier", 40), ("bulk", 1200), ("boundary_len", 170), ("boundary_n", 60), ("empties", 120), ("ratio", 20), ("many", 12), ("long", 12)]
         big = build("rel")
     cases = []
     for cls, n in plan:
